@@ -220,7 +220,7 @@ Lemma scan1_cons c r line : scan1 (c :: r) line =
     end.
 Proof. reflexivity. Qed.
 
-(** [c] is none of newline, blank, [/], ["]: the four tests made before the operator tables *)
+(** [c] is none of newline, blank, slash, double quote: the four tests made before the operator tables *)
 Definition plain (c : N) : Prop :=
   (c =? 10) = false /\ ((c =? 32) || (c =? 13) || (c =? 9)) = false /\ (c =? 47) = false /\ (c =? 34) = false.
 
@@ -374,3 +374,814 @@ Qed.
 
 Lemma scan1_nil line : scan1 [] line = None.
 Proof. reflexivity. Qed.
+
+(* ------------------------------------------------------------------ *)
+(** * Character facts (by computation on the tables) *)
+
+Lemma plain_nl c : plain c -> (c =? 10) = false.
+Proof. intros P. apply P. Qed.
+
+Lemma is_digit_cases c : is_digit c = true ->
+  In c [48; 49; 50; 51; 52; 53; 54; 55; 56; 57; 2534; 2535; 2536; 2537; 2538; 2539; 2540; 2541; 2542; 2543].
+Proof.
+  unfold is_digit. rewrite orb_true_iff, !andb_true_iff, !N.leb_le. intros H. simpl.
+  assert (c = 48 \/ c = 49 \/ c = 50 \/ c = 51 \/ c = 52 \/ c = 53 \/ c = 54 \/ c = 55 \/ c = 56 \/ c = 57 \/
+          c = 2534 \/ c = 2535 \/ c = 2536 \/ c = 2537 \/ c = 2538 \/ c = 2539 \/ c = 2540 \/ c = 2541 \/
+          c = 2542 \/ c = 2543) as K by lia.
+  repeat (destruct K as [K|K]; [subst c; auto 25|]). subst c. auto 25.
+Qed.
+
+(** a property of all digits, checked on the twenty of them *)
+Lemma digit_all (P : N -> bool) :
+  forallb P [48; 49; 50; 51; 52; 53; 54; 55; 56; 57; 2534; 2535; 2536; 2537; 2538; 2539; 2540; 2541; 2542; 2543] = true ->
+  forall c, is_digit c = true -> P c = true.
+Proof. intros H c Hc. rewrite forallb_forall in H. apply H. apply is_digit_cases. exact Hc. Qed.
+
+Lemma digit_nl c : is_digit c = true -> (c =? 10) = false.
+Proof. intros H. apply (digit_all (fun c => negb (c =? 10))) in H; [|vm_compute; reflexivity]. apply negb_true_iff in H. exact H. Qed.
+
+Lemma digit_not_alpha c : is_digit c = true -> is_alpha c = false.
+Proof. intros H. apply (digit_all (fun c => negb (is_alpha c))) in H; [|vm_compute; reflexivity]. apply negb_true_iff in H. exact H. Qed.
+
+Lemma digit_not_dot c : is_digit c = true -> (c =? 46) = false.
+Proof. intros H. apply (digit_all (fun c => negb (c =? 46))) in H; [|vm_compute; reflexivity]. apply negb_true_iff in H. exact H. Qed.
+
+Lemma digit_alnum c : is_digit c = true -> is_alnum c = true.
+Proof. intros H. unfold is_alnum. rewrite H. apply orb_true_r. Qed.
+
+Lemma digit_plain c : is_digit c = true -> plain c.
+Proof.
+  intros H. apply (digit_all (fun c => negb (c =? 10) && negb ((c =? 32) || (c =? 13) || (c =? 9)) && negb (c =? 47) && negb (c =? 34))) in H;
+    [|vm_compute; reflexivity].
+  rewrite !andb_true_iff, !negb_true_iff in H. unfold plain. tauto.
+Qed.
+
+Lemma digit_one_char c : is_digit c = true -> one_char c = None.
+Proof.
+  intros H. apply (digit_all (fun c => match one_char c with None => true | Some _ => false end)) in H; [|vm_compute; reflexivity].
+  destruct (one_char c); [discriminate|reflexivity].
+Qed.
+
+Lemma alnum_nl c : is_alnum c = true -> (c =? 10) = false.
+Proof. intros H. destruct (N.eqb_spec c 10) as [->|_]; [vm_compute in H; discriminate|reflexivity]. Qed.
+
+Lemma not_nl_nl c : not_nl c = true -> (c =? 10) = false.
+Proof. unfold not_nl. intros H. apply negb_true_iff in H. exact H. Qed.
+
+(** first and second characters of the nine two-character operators *)
+Lemma two_char_chars c d k : two_char c d = Some k ->
+  In c [124; 38; 42; 33; 61; 60; 62] /\ In d [124; 38; 42; 61; 60; 62].
+Proof.
+  unfold two_char. intros H.
+  repeat match type of H with
+  | context [?a =? ?n] => destruct (N.eqb_spec a n) as [->|?]; simpl in H
+  end; try discriminate; simpl; auto 15.
+Qed.
+
+Lemma two_char_plain c d k : two_char c d = Some k -> plain c.
+Proof.
+  intros H. destruct (two_char_chars c d k H) as [Hc _]. simpl in Hc.
+  repeat (destruct Hc as [Hc|Hc]; [subst c; vm_compute; auto|]). contradiction.
+Qed.
+
+Lemma two_char_not_alpha c d k : two_char c d = Some k -> is_alpha c = false.
+Proof.
+  intros H. destruct (two_char_chars c d k H) as [Hc _]. simpl in Hc.
+  repeat (destruct Hc as [Hc|Hc]; [subst c; vm_compute; auto|]). contradiction.
+Qed.
+
+Lemma two_char_second_nl c d k : two_char c d = Some k -> (d =? 10) = false.
+Proof.
+  intros H. destruct (two_char_chars c d k H) as [_ Hd]. simpl in Hd.
+  repeat (destruct Hd as [Hd|Hd]; [subst d; vm_compute; auto|]). contradiction.
+Qed.
+
+Lemma one_char_cases c k : one_char c = Some k ->
+  In c [40; 41; 123; 125; 91; 93; 44; 46; 45; 58; 43; 59; 124; 38; 94; 126; 42; 33; 61; 60; 62; 37].
+Proof.
+  unfold one_char. intros H.
+  repeat match type of H with
+  | (if (?a =? ?n) then _ else _) = _ => destruct (N.eqb_spec a n) as [->|?]; [simpl; auto 30|]
+  end. discriminate.
+Qed.
+
+Lemma one_char_not_alpha c k : one_char c = Some k -> is_alpha c = false.
+Proof.
+  intros H. apply one_char_cases in H. simpl in H.
+  repeat (destruct H as [H|H]; [subst c; vm_compute; auto|]). contradiction.
+Qed.
+
+(** blanks and the newline are not word or number characters, nor operator characters *)
+Definition is_ws (w : N) : Prop := w = 32 \/ w = 9 \/ w = 13 \/ w = 10.
+
+Lemma ws_facts w : is_ws w ->
+  is_alnum w = false /\ is_digit w = false /\ is_alpha w = false /\ (w =? 46) = false /\ (w =? 47) = false /\
+  (w =? 42) = false /\ (w =? 34) = false /\ (forall c, two_char c w = None).
+Proof.
+  intros [->|[->|[->| ->]]]; (repeat split; try (vm_compute; reflexivity));
+    intros c; destruct (two_char c _) as [k|] eqn:E; auto;
+    destruct (two_char_chars _ _ _ E) as [_ Hd]; simpl in Hd; intuition discriminate.
+Qed.
+
+Lemma alpha_plain c : is_alpha c = true -> plain c.
+Proof.
+  intros H. unfold plain.
+  destruct (N.eqb_spec c 10) as [->|_]; [vm_compute in H; discriminate|].
+  destruct (N.eqb_spec c 32) as [->|_]; [vm_compute in H; discriminate|].
+  destruct (N.eqb_spec c 13) as [->|_]; [vm_compute in H; discriminate|].
+  destruct (N.eqb_spec c 9) as [->|_]; [vm_compute in H; discriminate|].
+  destruct (N.eqb_spec c 47) as [->|_]; [vm_compute in H; discriminate|].
+  destruct (N.eqb_spec c 34) as [->|_]; [vm_compute in H; discriminate|].
+  auto.
+Qed.
+
+(* ------------------------------------------------------------------ *)
+(** * The fraction look-ahead of a number *)
+
+Definition dig_hd (l : list N) : bool := match l with e :: _ => is_digit e | [] => false end.
+
+Lemma frac_spec rest fs rest' : frac rest = (fs, rest') ->
+  rest = fs ++ rest' /\
+  ((fs = [] /\ forall e t, rest' = 46 :: e :: t -> is_digit e = false) \/
+   (exists e more, fs = 46 :: e :: more /\ forallb is_digit (e :: more) = true /\ dig_hd rest' = false)).
+Proof.
+  unfold frac. destruct rest as [|p [|e rest0]].
+  - intros H. inv_some H. split; [reflexivity|]. left. split; [reflexivity|]. intros e t Hc. discriminate.
+  - intros H. inv_some H. split; [reflexivity|]. left. split; [reflexivity|]. intros e t Hc. discriminate.
+  - destruct ((p =? 46) && is_digit e) eqn:E.
+    + apply andb_true_iff in E. destruct E as [E1 E2]. apply N.eqb_eq in E1. subst p.
+      destruct (span is_digit (e :: rest0)) as [fs0 rest1] eqn:ES.
+      intros H. inv_some H. destruct (span_spec _ _ _ _ ES) as (SA & SF & SR).
+      split; [simpl; f_equal; exact SA|]. right.
+      simpl in ES. rewrite E2 in ES. destruct (span is_digit rest0) as [a0 b0] eqn:ES0. inv_some ES.
+      exists e, a0. split; [reflexivity|]. split; [exact SF|].
+      destruct SR as [->|(c & r & -> & Hc)]; [reflexivity|exact Hc].
+    + intros H. inv_some H. split; [reflexivity|]. left. split; [reflexivity|].
+      intros e0 t Hc. inv_some Hc. simpl in E. exact E.
+Qed.
+
+Lemma frac_none rest : (forall e t, rest = 46 :: e :: t -> is_digit e = false) -> frac rest = ([], rest).
+Proof.
+  intros H. unfold frac. destruct rest as [|p [|e rest0]]; try reflexivity.
+  destruct (N.eqb_spec p 46) as [->|_]; [|reflexivity]. rewrite (H e rest0 eq_refl). reflexivity.
+Qed.
+
+Lemma frac_some e more rest' : forallb is_digit (e :: more) = true -> dig_hd rest' = false ->
+  frac (46 :: (e :: more) ++ rest') = (46 :: e :: more, rest').
+Proof.
+  intros HF HR. unfold frac. simpl app. pose proof HF as HF'. simpl in HF'. apply andb_true_iff in HF'. destruct HF' as [He _].
+  rewrite He. simpl andb. cbv iota.
+  change (e :: more ++ rest') with ((e :: more) ++ rest').
+  rewrite (span_intro is_digit (e :: more) rest' HF); [reflexivity|].
+  destruct rest' as [|c r]; [exact I|exact HR].
+Qed.
+
+Lemma frac_text_no_nl rest fs rest' : frac rest = (fs, rest') -> count_nl fs = 0.
+Proof.
+  intros H. destruct (frac_spec _ _ _ H) as (_ & [(-> & _)|(e & more & -> & HF & _)]); [reflexivity|].
+  rewrite count_nl_cons by reflexivity. apply (count_nl_forallb is_digit digit_nl). exact HF.
+Qed.
+
+(* ------------------------------------------------------------------ *)
+(** * Item 1: what one step does to the text and the line counter *)
+
+(** The item's text is a non-empty prefix of the input, the rest is what follows it, the
+    line counter advances by the number of newlines in the item's text, and the item
+    carries the counter *after* its text. *)
+Theorem scan1_step l line it rest line' :
+  scan1 l line = Some (it, rest, line') ->
+  l = itext it ++ rest /\ itext it <> [] /\ line' = line + count_nl (itext it) /\ iline it = line'.
+Proof.
+  intros H. apply scan1_step_rel in H.
+  destruct H as
+    [ r line | c r line H10 HB | r' body rest line ES | r' body rest line EC | r' line EC
+    | r line HS | r body rest' line ES | r body line ES
+    | c d r' k line P ET | c r k line P E2 E1
+    | c r ds rest fs rest' v line P E2 E1 ED ES EF EV
+    | c r ds rest fs rest' line P E2 E1 ED ES EF EV
+    | c r cs rest line P E2 E1 ED EA ES
+    | c r line P E2 E1 ED EA ]; cbn [itext iline].
+  - split; [reflexivity|]. split; [discriminate|]. split; [|reflexivity]. rewrite count_nl_cons_nl, count_nl_nil. lia.
+  - split; [reflexivity|]. split; [discriminate|]. split; [|reflexivity]. rewrite count_nl_single by exact H10. lia.
+  - destruct (span_spec _ _ _ _ ES) as (SA & SF & _).
+    split; [simpl; rewrite SA; reflexivity|]. split; [discriminate|]. split; [|reflexivity].
+    rewrite !count_nl_cons by reflexivity. rewrite (count_nl_forallb not_nl not_nl_nl body SF). lia.
+  - destruct (block_comment_spec _ _ _ EC) as [SA _].
+    split; [simpl; rewrite SA; reflexivity|]. split; [discriminate|]. split; [|reflexivity].
+    rewrite !count_nl_cons by reflexivity. reflexivity.
+  - split; [rewrite app_nil_r; reflexivity|]. split; [discriminate|]. split; [|reflexivity].
+    rewrite !count_nl_cons by reflexivity. reflexivity.
+  - split; [reflexivity|]. split; [discriminate|]. split; [|reflexivity]. rewrite count_nl_single by reflexivity. lia.
+  - pose proof (span_app _ _ _ _ ES) as SA.
+    split; [simpl; rewrite <- app_assoc; simpl; rewrite SA; reflexivity|]. split; [discriminate|]. split; [|reflexivity].
+    rewrite count_nl_cons by reflexivity. rewrite count_nl_app, count_nl_single by reflexivity. lia.
+  - pose proof (span_app _ _ _ _ ES) as SA. rewrite app_nil_r in SA.
+    split; [rewrite app_nil_r, SA; reflexivity|]. split; [discriminate|]. split; [|reflexivity].
+    rewrite count_nl_cons by reflexivity. reflexivity.
+  - split; [reflexivity|]. split; [discriminate|]. split; [|reflexivity].
+    rewrite count_nl_cons by (apply plain_nl; exact P). rewrite count_nl_single by (eapply two_char_second_nl; exact ET). lia.
+  - split; [reflexivity|]. split; [discriminate|]. split; [|reflexivity].
+    rewrite count_nl_single by (apply plain_nl; exact P). lia.
+  - destruct (span_spec _ _ _ _ ES) as (SA & SF & _). destruct (frac_spec _ _ _ EF) as (FA & _).
+    split; [simpl; rewrite <- app_assoc, <- FA, <- SA; reflexivity|]. split; [discriminate|]. split; [|reflexivity].
+    rewrite count_nl_app, (frac_text_no_nl _ _ _ EF). rewrite count_nl_cons by (apply plain_nl; exact P).
+    rewrite (count_nl_forallb is_digit digit_nl ds SF). lia.
+  - destruct (span_spec _ _ _ _ ES) as (SA & SF & _). destruct (frac_spec _ _ _ EF) as (FA & _).
+    split; [simpl; rewrite <- app_assoc, <- FA, <- SA; reflexivity|]. split; [discriminate|]. split; [|reflexivity].
+    rewrite count_nl_app, (frac_text_no_nl _ _ _ EF). rewrite count_nl_cons by (apply plain_nl; exact P).
+    rewrite (count_nl_forallb is_digit digit_nl ds SF). lia.
+  - destruct (span_spec _ _ _ _ ES) as (SA & SF & _).
+    split; [simpl; rewrite <- SA; reflexivity|]. split; [discriminate|]. split; [|reflexivity].
+    rewrite count_nl_cons by (apply plain_nl; exact P). rewrite (count_nl_forallb is_alnum alnum_nl cs SF). lia.
+  - split; [reflexivity|]. split; [discriminate|]. split; [|reflexivity].
+    rewrite count_nl_single by (apply plain_nl; exact P). lia.
+Qed.
+
+(* ------------------------------------------------------------------ *)
+(** * The whole text: fuel, decomposition at an item boundary *)
+
+Lemma scan_S f l line : scan (S f) l line =
+  match scan1 l line with
+  | None => ([], line)
+  | Some (it, rest, line') => let '(its, fin) := scan f rest line' in (it :: its, fin)
+  end.
+Proof. reflexivity. Qed.
+
+Lemma scan_0 l line : scan 0 l line = ([], line).
+Proof. reflexivity. Qed.
+
+Lemma scan1_shorter l line it rest line' :
+  scan1 l line = Some (it, rest, line') -> (length rest < length l)%nat.
+Proof.
+  intros H. destruct (scan1_step _ _ _ _ _ H) as (P & NE & _ & _). rewrite P, app_length.
+  destruct (itext it); [congruence|simpl; lia].
+Qed.
+
+(** any fuel at least the length of the text gives the same result: every item is non-empty *)
+Lemma scan_fuel : forall f1 f2 l line, (length l <= f1)%nat -> (length l <= f2)%nat ->
+  scan f1 l line = scan f2 l line.
+Proof.
+  induction f1 as [|f1 IH]; intros f2 l line H1 H2.
+  - destruct l; [|simpl in H1; lia]. destruct f2; reflexivity.
+  - destruct f2 as [|f2].
+    + destruct l; [|simpl in H2; lia]. reflexivity.
+    + rewrite !scan_S. destruct (scan1 l line) as [[[it rest] line']|] eqn:E; [|reflexivity].
+      pose proof (scan1_shorter _ _ _ _ _ E) as HL. rewrite (IH f2 rest line') by lia. reflexivity.
+Qed.
+
+(** the scan with exactly enough fuel *)
+Definition scan_all (l : list N) (line : N) : list item * N := scan (length l) l line.
+
+Lemma lex_items_scan_all src : lex_items src = scan_all src 1.
+Proof. reflexivity. Qed.
+
+Lemma scan_scan_all f l line : (length l <= f)%nat -> scan f l line = scan_all l line.
+Proof. intros H. apply scan_fuel; [exact H|lia]. Qed.
+
+Lemma scan_all_nil line : scan_all [] line = ([], line).
+Proof. reflexivity. Qed.
+
+Lemma scan_all_unfold l line : scan_all l line =
+  match scan1 l line with
+  | None => ([], line)
+  | Some (it, rest, line') => let '(its, fin) := scan_all rest line' in (it :: its, fin)
+  end.
+Proof.
+  destruct l as [|c r]; [reflexivity|]. unfold scan_all at 1. cbn [length]. rewrite scan_S.
+  destruct (scan1 (c :: r) line) as [[[it rest] line']|] eqn:E; [|reflexivity].
+  pose proof (scan1_shorter _ _ _ _ _ E) as HL. cbn [length] in HL.
+  rewrite (scan_scan_all (length r) rest line') by lia. reflexivity.
+Qed.
+
+Lemma scan_all_step l line it rest line' : scan1 l line = Some (it, rest, line') ->
+  fst (scan_all l line) = it :: fst (scan_all rest line') /\ snd (scan_all l line) = snd (scan_all rest line').
+Proof.
+  intros H. rewrite (scan_all_unfold l line), H. destruct (scan_all rest line') as [its fin]. split; reflexivity.
+Qed.
+
+Lemma scan_all_cons_inv l line it its : fst (scan_all l line) = it :: its ->
+  exists rest line', scan1 l line = Some (it, rest, line') /\ fst (scan_all rest line') = its /\
+                     snd (scan_all rest line') = snd (scan_all l line).
+Proof.
+  intros H. rewrite scan_all_unfold in H |- *. destruct (scan1 l line) as [[[it0 rest] line']|] eqn:E; [|discriminate].
+  destruct (scan_all rest line') as [its0 fin] eqn:E2. simpl in H. inv_some H.
+  exists rest, line'. rewrite E2. simpl. auto.
+Qed.
+
+Lemma scan_all_empty_inv l line : fst (scan_all l line) = [] -> l = [] /\ snd (scan_all l line) = line.
+Proof.
+  intros H. rewrite scan_all_unfold in H |- *. destruct (scan1 l line) as [[[it0 rest] line']|] eqn:E.
+  - destruct (scan_all rest line'). discriminate.
+  - apply scan1_none in E. auto.
+Qed.
+
+(** Decomposition: if the items of [l] are [i1 ++ i2] then [l] is the text of [i1] followed by
+    some [b] whose items (scanned from the line reached after [i1]) are [i2]. *)
+Lemma scan_all_split : forall i1 i2 l line, fst (scan_all l line) = i1 ++ i2 ->
+  exists b, l = concat (map itext i1) ++ b /\
+            fst (scan_all b (line + count_nl (concat (map itext i1)))) = i2 /\
+            snd (scan_all b (line + count_nl (concat (map itext i1)))) = snd (scan_all l line).
+Proof.
+  induction i1 as [|it i1 IH]; intros i2 l line H.
+  - exists l. simpl. rewrite count_nl_nil, N.add_0_r. auto.
+  - simpl in H. destruct (scan_all_cons_inv _ _ _ _ H) as (rest & line' & E & Hr & Hs).
+    destruct (scan1_step _ _ _ _ _ E) as (P & _ & LN & _).
+    destruct (IH i2 rest line' Hr) as (b & Pb & Hb & Hsb).
+    exists b. cbn [map concat]. rewrite count_nl_app, N.add_assoc, <- LN.
+    split; [rewrite P, Pb, app_assoc; reflexivity|]. split; [exact Hb|]. rewrite Hsb. exact Hs.
+Qed.
+
+(** every item in the list was produced by a [scan1] step on the text that remains at its position *)
+Lemma scan_all_nth i1 it i2 l line : fst (scan_all l line) = i1 ++ it :: i2 ->
+  l = concat (map itext i1) ++ itext it ++ concat (map itext i2) /\
+  scan1 (itext it ++ concat (map itext i2)) (line + count_nl (concat (map itext i1))) =
+    Some (it, concat (map itext i2), iline it) /\
+  fst (scan_all (concat (map itext i2)) (iline it)) = i2.
+Proof.
+  intros H. destruct (scan_all_split i1 (it :: i2) l line H) as (b & Pb & Hb & _).
+  destruct (scan_all_cons_inv _ _ _ _ Hb) as (rest & line' & E & Hr & _).
+  destruct (scan1_step _ _ _ _ _ E) as (P & _ & _ & IL). subst line'.
+  destruct (scan_all_split i2 [] rest (iline it)) as (b2 & Pb2 & Hb2 & _); [rewrite app_nil_r; exact Hr|].
+  apply scan_all_empty_inv in Hb2. destruct Hb2 as [-> _]. rewrite app_nil_r in Pb2. subst rest.
+  split; [rewrite Pb, P; reflexivity|]. split; [rewrite <- P; exact E|exact Hr].
+Qed.
+
+(* ------------------------------------------------------------------ *)
+(** * Items 2 and 3: partition of the source, line of the end-of-input token *)
+
+Lemma scan_all_partition l line :
+  concat (map itext (fst (scan_all l line))) = l /\ snd (scan_all l line) = line + count_nl l.
+Proof.
+  destruct (scan_all_split (fst (scan_all l line)) [] l line) as (b & Pb & Hb & Hs); [rewrite app_nil_r; reflexivity|].
+  apply scan_all_empty_inv in Hb. destruct Hb as [-> Hfin]. rewrite app_nil_r in Pb.
+  split; [symmetry; exact Pb|]. rewrite <- Hs, Hfin, <- Pb. reflexivity.
+Qed.
+
+(** with fuel at least the length of the text the whole text is consumed *)
+Theorem scan_all_consumed f l line : (length l <= f)%nat ->
+  concat (map itext (fst (scan f l line))) = l /\ snd (scan f l line) = line + count_nl l.
+Proof. intros H. rewrite (scan_scan_all f l line H). apply scan_all_partition. Qed.
+
+(** The texts of the items, in order, are exactly the source: nothing dropped, duplicated or reordered. *)
+Theorem lex_items_partition src : concat (map itext (fst (lex_items src))) = src.
+Proof. apply scan_all_partition. Qed.
+
+(** The end-of-input token is on line 1 + the number of newlines of the source. *)
+Theorem eof_line_items src : snd (lex_items src) = 1 + count_nl src.
+Proof. apply scan_all_partition. Qed.
+
+Lemma lex_eq src : lex src = mkLexed (tokens_of (fst (lex_items src))) (snd (lex_items src)) (lexdiags_of (fst (lex_items src))).
+Proof. unfold lex. destruct (lex_items src) as [its fin]. reflexivity. Qed.
+
+Theorem eof_line src : lx_eof_line (lex src) = 1 + count_nl src.
+Proof. rewrite lex_eq. simpl. apply eof_line_items. Qed.
+
+(* ------------------------------------------------------------------ *)
+(** * Item 4: the line of every item *)
+
+(** An item carries 1 + the number of newlines in the source up to and including its own text. *)
+Theorem line_spec src i1 it i2 : fst (lex_items src) = i1 ++ it :: i2 ->
+  iline it = 1 + count_nl (concat (map itext i1) ++ itext it).
+Proof.
+  intros H. rewrite lex_items_scan_all in H. destruct (scan_all_nth _ _ _ _ _ H) as (_ & E & _).
+  destruct (scan1_step _ _ _ _ _ E) as (_ & _ & LN & _). rewrite count_nl_app, N.add_assoc. exact LN.
+Qed.
+
+(** every item of [lex_items src] is the result of some scanner step *)
+Definition produced (it : item) (rest : list N) : Prop := exists l line line', scan1 l line = Some (it, rest, line').
+
+Lemma lex_items_produced src i1 it i2 : fst (lex_items src) = i1 ++ it :: i2 ->
+  produced it (concat (map itext i2)).
+Proof.
+  intros H. rewrite lex_items_scan_all in H. destruct (scan_all_nth _ _ _ _ _ H) as (_ & E & _).
+  eexists _, _, _. exact E.
+Qed.
+
+(** the text of a token never ends with a newline *)
+Lemma token_last_not_nl l line it rest line' k lit : scan1 l line = Some (it, rest, line') ->
+  ik it = IToken k lit -> exists x c, itext it = x ++ [c] /\ (c =? 10) = false.
+Proof.
+  intros H. apply scan1_step_rel in H.
+  destruct H as
+    [ r line | c r line H10 HB | r' body rest line ES | r' body rest line EC | r' line EC
+    | r line HS | r body rest' line ES | r body line ES
+    | c d r' k0 line P ET | c r k0 line P E2 E1
+    | c r ds rest fs rest' v line P E2 E1 ED ES EF EV
+    | c r ds rest fs rest' line P E2 E1 ED ES EF EV
+    | c r cs rest line P E2 E1 ED EA ES
+    | c r line P E2 E1 ED EA ]; cbn [ik itext]; intros K; try discriminate K.
+  - exists [], 47. auto.
+  - exists (34 :: body), 34. auto.
+  - exists [c], d. split; [reflexivity|]. eapply two_char_second_nl; exact ET.
+  - exists [], c. split; [reflexivity|]. apply plain_nl; exact P.
+  - assert (Hall : forallb (fun x => negb (x =? 10)) ((c :: ds) ++ fs) = true).
+    { rewrite forallb_app. apply andb_true_iff. split.
+      - simpl. rewrite (plain_nl c P). simpl. pose proof (span_forallb _ _ _ _ ES) as SF.
+        rewrite forallb_forall in SF |- *. intros x Hx. rewrite (digit_nl x (SF x Hx)). reflexivity.
+      - destruct (frac_spec _ _ _ EF) as (_ & [(-> & _)|(e & more & -> & HF & _)]); [reflexivity|].
+        simpl. rewrite forallb_forall in HF. rewrite (digit_nl e (HF e (or_introl eq_refl))). simpl.
+        rewrite forallb_forall. intros x Hx. rewrite (digit_nl x (HF x (or_intror Hx))). reflexivity. }
+    destruct (exists_last (l := (c :: ds) ++ fs)) as (x & y & Hxy); [discriminate|].
+    exists x, y. split; [exact Hxy|]. rewrite Hxy, forallb_app in Hall. apply andb_true_iff in Hall.
+    destruct Hall as [_ Hy]. simpl in Hy. rewrite andb_true_r in Hy. apply negb_true_iff in Hy. exact Hy.
+  - pose proof (span_forallb _ _ _ _ ES) as SF.
+    destruct (exists_last (l := c :: cs)) as (x & y & Hxy); [discriminate|].
+    exists x, y. split; [exact Hxy|].
+    destruct x as [|x0 x]; simpl in Hxy; inv_some Hxy; [apply plain_nl; exact P|].
+    rewrite forallb_app in SF. apply andb_true_iff in SF. destruct SF as [_ Hy]. simpl in Hy.
+    rewrite andb_true_r in Hy. apply alnum_nl; exact Hy.
+Qed.
+
+(** A token is on line 1 + the number of newlines that precede its last character. *)
+Theorem token_line_spec src i1 it i2 k lit : fst (lex_items src) = i1 ++ it :: i2 ->
+  ik it = IToken k lit ->
+  iline it = 1 + count_nl (concat (map itext i1) ++ removelast (itext it)).
+Proof.
+  intros H K. rewrite (line_spec src i1 it i2 H).
+  destruct (lex_items_produced _ _ _ _ H) as (l & line & line' & E).
+  destruct (token_last_not_nl _ _ _ _ _ _ _ E K) as (x & c & Hx & Hc).
+  rewrite Hx, removelast_last. rewrite !count_nl_app, count_nl_single by exact Hc. lia.
+Qed.
+
+(* ------------------------------------------------------------------ *)
+(** * Item 5: tokens and diagnostics are the projections of the items *)
+
+Theorem tokens_of_lex src : lx_tokens (lex src) = tokens_of (fst (lex_items src)).
+Proof. rewrite lex_eq. reflexivity. Qed.
+
+Theorem diags_of_lex src : lx_diags (lex src) = lexdiags_of (fst (lex_items src)).
+Proof. rewrite lex_eq. reflexivity. Qed.
+
+(** order is preserved: projecting commutes with concatenation *)
+Theorem tokens_of_app a b : tokens_of (a ++ b) = tokens_of a ++ tokens_of b.
+Proof.
+  induction a as [|it a IH]; [reflexivity|]. simpl. destruct (token_of_item it); simpl; rewrite IH; reflexivity.
+Qed.
+
+Theorem lexdiags_of_app a b : lexdiags_of (a ++ b) = lexdiags_of a ++ lexdiags_of b.
+Proof.
+  induction a as [|it a IH]; [reflexivity|]. simpl. destruct (diag_of_item it); simpl; rewrite IH; reflexivity.
+Qed.
+
+(** every token item appears as a token with the item's kind, text, literal and line *)
+Theorem token_fields items it k l : In it items -> ik it = IToken k l ->
+  In (mkTok k (itext it) l (iline it)) (tokens_of items).
+Proof.
+  intros HI K. apply in_split in HI. destruct HI as (a & b & ->). rewrite tokens_of_app. apply in_or_app. right.
+  simpl. unfold token_of_item. rewrite K. left. reflexivity.
+Qed.
+
+(** conversely every token comes from a token item *)
+Theorem token_origin items t : In t (tokens_of items) ->
+  exists it, In it items /\ ik it = IToken (tk t) (tlit t) /\ tlex t = itext it /\ tline t = iline it.
+Proof.
+  induction items as [|it items IH]; simpl; [contradiction|].
+  unfold token_of_item. destruct (ik it) as [k l| | | | |d] eqn:K;
+    try (intros H; destruct (IH H) as (it' & HI & R); exists it'; split; [right; exact HI|exact R]).
+  intros [<-|H].
+  - exists it. simpl. auto.
+  - destruct (IH H) as (it' & HI & R). exists it'. split; [right; exact HI|exact R].
+Qed.
+
+Theorem diag_fields items it d : In it items -> ik it = IBad d -> In (iline it, d) (lexdiags_of items).
+Proof.
+  intros HI K. apply in_split in HI. destruct HI as (a & b & ->). rewrite lexdiags_of_app. apply in_or_app. right.
+  simpl. unfold diag_of_item. rewrite K. left. reflexivity.
+Qed.
+
+(* ------------------------------------------------------------------ *)
+(** * Item 6: classification of the items *)
+
+(** What an item of each kind looks like ([rest] is the text that follows it).  The kinds
+    are the constructors of [ikind], so exactly one clause applies to any item. *)
+Definition item_ok (it : item) (rest : list N) : Prop :=
+  match ik it with
+  | IToken k l => token_of_item it = Some (mkTok k (itext it) l (iline it)) /\ diag_of_item it = None
+  | IBlank => (itext it = [32] \/ itext it = [13] \/ itext it = [9]) /\ token_of_item it = None /\ diag_of_item it = None
+  | INewline => itext it = [10] /\ token_of_item it = None /\ diag_of_item it = None
+  | ILineComment =>
+      (exists body, itext it = 47 :: 47 :: body /\ forallb not_nl body = true) /\
+      (rest = [] \/ exists r, rest = 10 :: r) /\ token_of_item it = None /\ diag_of_item it = None
+  | IBlockComment =>
+      (exists body0, itext it = 47 :: 42 :: body0 ++ [42; 47]) /\ token_of_item it = None /\ diag_of_item it = None
+  | IBad d =>
+      token_of_item it = None /\ diag_of_item it = Some (iline it, d) /\
+      match d with
+      | LexUnexpectedChar =>
+          exists c, itext it = [c] /\ is_digit c = false /\ is_alpha c = false /\ one_char c = None /\ plain c
+      | LexUnterminatedString =>
+          exists body, itext it = 34 :: body /\ forallb not_quote body = true /\ rest = []
+      | LexUnterminatedComment =>
+          exists r, itext it = 47 :: 42 :: r /\ block_comment r = None /\ rest = []
+      | LexBadNumber =>
+          exists c ds fs, itext it = (c :: ds) ++ fs /\ is_digit c = true /\ forallb is_digit ds = true /\
+                          literal_value (translit_str (c :: ds)) (translit_str (tl fs)) = None
+      end
+  end.
+
+Lemma blank_cases c : ((c =? 32) || (c =? 13) || (c =? 9)) = true -> c = 32 \/ c = 13 \/ c = 9.
+Proof. rewrite !orb_true_iff, !N.eqb_eq. tauto. Qed.
+
+Theorem scan1_classify l line it rest line' : scan1 l line = Some (it, rest, line') -> item_ok it rest.
+Proof.
+  intros H. apply scan1_step_rel in H. unfold item_ok, token_of_item, diag_of_item.
+  destruct H as
+    [ r line | c r line H10 HB | r' body rest line ES | r' body rest line EC | r' line EC
+    | r line HS | r body rest' line ES | r body line ES
+    | c d r' k0 line P ET | c r k0 line P E2 E1
+    | c r ds rest fs rest' v line P E2 E1 ED ES EF EV
+    | c r ds rest fs rest' line P E2 E1 ED ES EF EV
+    | c r cs rest line P E2 E1 ED EA ES
+    | c r line P E2 E1 ED EA ]; cbn [ik itext iline]; auto.
+  - split; [|auto]. apply blank_cases in HB. destruct HB as [->|[->| ->]]; auto.
+  - destruct (span_spec _ _ _ _ ES) as (_ & SF & SR). split; [exists body; auto|]. split; [|auto].
+    destruct SR as [->|(c & r & -> & Hc)]; [left; reflexivity|right].
+    unfold not_nl in Hc. apply negb_false_iff, N.eqb_eq in Hc. subst c. exists r. reflexivity.
+  - destruct (block_comment_spec _ _ _ EC) as (_ & b0 & ->). split; [exists b0; reflexivity|auto].
+  - split; [reflexivity|]. split; [reflexivity|]. exists r'. auto.
+  - split; [reflexivity|]. split; [reflexivity|]. exists body. split; [reflexivity|]. split; [|reflexivity].
+    eapply span_forallb; exact ES.
+  - split; [reflexivity|]. split; [reflexivity|]. exists c, ds, fs. split; [reflexivity|]. split; [exact ED|].
+    split; [eapply span_forallb; exact ES|exact EV].
+  - split; [reflexivity|]. split; [reflexivity|]. exists c. auto.
+Qed.
+
+(** lifted to every item of a source text *)
+Theorem lex_items_classify src i1 it i2 : fst (lex_items src) = i1 ++ it :: i2 ->
+  item_ok it (concat (map itext i2)).
+Proof.
+  intros H. destruct (lex_items_produced _ _ _ _ H) as (l & line & line' & E). eapply scan1_classify; exact E.
+Qed.
+
+Theorem lex_items_all_ok src : Forall (fun it => exists rest, item_ok it rest) (fst (lex_items src)).
+Proof.
+  apply Forall_forall. intros it HI. apply in_split in HI. destruct HI as (i1 & i2 & H).
+  exists (concat (map itext i2)). eapply lex_items_classify; exact H.
+Qed.
+
+(** an unterminated string or comment swallows the rest of the text: it is the last item *)
+Theorem unterminated_is_last src i1 it i2 : fst (lex_items src) = i1 ++ it :: i2 ->
+  ik it = IBad LexUnterminatedString \/ ik it = IBad LexUnterminatedComment -> i2 = [].
+Proof.
+  intros H K. pose proof (lex_items_classify _ _ _ _ H) as C. unfold item_ok in C.
+  assert (R : concat (map itext i2) = []).
+  { destruct K as [K|K]; rewrite K in C; destruct C as (_ & _ & x & _ & _ & R); exact R. }
+  rewrite lex_items_scan_all in H. destruct (scan_all_nth _ _ _ _ _ H) as (_ & _ & H2).
+  rewrite R in H2. rewrite scan_all_nil in H2. symmetry. exact H2.
+Qed.
+
+(** every rejected piece yields exactly one diagnostic, every other item none:
+    the diagnostics are in one-to-one correspondence with the [IBad] items, in order *)
+Theorem lexdiags_of_spec items :
+  lexdiags_of items = flat_map (fun it => match ik it with IBad d => [(iline it, d)] | _ => [] end) items.
+Proof.
+  induction items as [|it items IH]; [reflexivity|]. simpl. unfold diag_of_item.
+  destruct (ik it); simpl; rewrite IH; reflexivity.
+Qed.
+
+(* ------------------------------------------------------------------ *)
+(** * Item 7: keywords *)
+
+Lemma str_eqb_eq : forall a b, str_eqb a b = true <-> a = b.
+Proof.
+  induction a as [|x a IH]; destruct b as [|y b]; simpl; split; intros H; try reflexivity; try discriminate.
+  - apply andb_true_iff in H. destruct H as [H1 H2]. apply N.eqb_eq in H1. apply IH in H2. congruence.
+  - inv_some H. rewrite N.eqb_refl. simpl. apply IH. reflexivity.
+Qed.
+
+Lemma assoc_in {A} s (l : list (list N * A)) v : assoc s l = Some v -> In (s, v) l.
+Proof.
+  induction l as [|[k' v'] l IH]; simpl; [discriminate|].
+  destruct (str_eqb s k') eqn:E.
+  - intros H. inv_some H. apply str_eqb_eq in E. subst k'. left. reflexivity.
+  - intros H. right. apply IH. exact H.
+Qed.
+
+Lemma in_assoc {A} s (l : list (list N * A)) v : NoDup (map fst l) -> In (s, v) l -> assoc s l = Some v.
+Proof.
+  induction l as [|[k' v'] l IH]; simpl; intros ND HI; [contradiction|].
+  inversion ND as [|x xs NI ND']; subst x xs.
+  destruct HI as [HI|HI].
+  - inv_some HI. destruct (str_eqb s s) eqn:E; [reflexivity|].
+    assert (str_eqb s s = true) by (apply str_eqb_eq; reflexivity). congruence.
+  - destruct (str_eqb s k') eqn:E; [|apply IH; assumption].
+    apply str_eqb_eq in E. subst k'. exfalso. apply NI. apply (in_map fst) in HI. exact HI.
+Qed.
+
+Theorem keywords_length : length keywords = 15%nat.
+Proof. reflexivity. Qed.
+
+Theorem keywords_nodup : NoDup (map fst keywords).
+Proof.
+  unfold keywords. cbn [map fst].
+  repeat (apply NoDup_cons; [cbn [In]; intuition discriminate|]). apply NoDup_nil.
+Qed.
+
+(** a word is a keyword exactly when it is one of the 15 spellings of the table *)
+Theorem keyword_of_iff s k : keyword_of s = Some k <-> In (s, k) keywords.
+Proof. unfold keyword_of. split; [apply assoc_in|apply in_assoc; exact keywords_nodup]. Qed.
+
+Lemma keyword_not_identifier s k : keyword_of s = Some k -> k <> TIDENTIFIER.
+Proof.
+  intros H. apply keyword_of_iff in H. unfold keywords in H. cbn [In] in H.
+  intros ->. intuition discriminate.
+Qed.
+
+(** the identifier branch: an [is_alpha] first character always leads there (maximal munch, item 9b, included) *)
+Theorem scan1_word c r line it rest line' : is_alpha c = true ->
+  scan1 (c :: r) line = Some (it, rest, line') ->
+  exists cs, span is_alnum r = (cs, rest) /\ it = mkItem (IToken (word_kind (c :: cs)) LNone) (c :: cs) line /\ line' = line.
+Proof.
+  intros HA H. apply scan1_step_rel in H.
+  inversion H as
+    [ r0 line0 | c0 r0 line0 H10 HB | r' body rest0 line0 ES | r' body rest0 line0 EC | r' line0 EC
+    | r0 line0 HS | r0 body rest' line0 ES | r0 body line0 ES
+    | c0 d r' k0 line0 P ET | c0 r0 k0 line0 P E2 E1
+    | c0 r0 ds rest0 fs rest' v line0 P E2 E1 ED ES EF EV
+    | c0 r0 ds rest0 fs rest' line0 P E2 E1 ED ES EF EV
+    | c0 r0 cs rest0 line0 P E2 E1 ED EA ES
+    | c0 r0 line0 P E2 E1 ED EA ]; subst;
+    try (vm_compute in HA; discriminate HA).
+  - apply blank_cases in HB. destruct HB as [->|[->| ->]]; vm_compute in HA; discriminate HA.
+  - rewrite (two_char_not_alpha _ _ _ ET) in HA. discriminate.
+  - rewrite (one_char_not_alpha _ _ E1) in HA. discriminate.
+  - rewrite (digit_not_alpha _ ED) in HA. discriminate.
+  - rewrite (digit_not_alpha _ ED) in HA. discriminate.
+  - exists cs. auto.
+  - congruence.
+Qed.
+
+(** first characters of the token items that are not words *)
+Lemma token_first_char l line it rest line' k lit : scan1 l line = Some (it, rest, line') ->
+  ik it = IToken k lit -> is_alpha (hd 0 (itext it)) = true ->
+  exists c r, l = c :: r /\ is_alpha c = true.
+Proof.
+  intros H K HA. destruct (scan1_step _ _ _ _ _ H) as (P & NE & _ & _).
+  destruct (itext it) as [|c x] eqn:T; [congruence|]. simpl in HA. exists c, (x ++ rest). split; [exact P|exact HA].
+Qed.
+
+(** A word token (first character [is_alpha]) has kind [word_kind lexeme]; it is a keyword
+    token exactly when its lexeme is one of the spellings in [keywords]. *)
+Theorem keyword_iff l line it rest line' k lit : scan1 l line = Some (it, rest, line') ->
+  ik it = IToken k lit -> is_alpha (hd 0 (itext it)) = true ->
+  lit = LNone /\ k = word_kind (itext it) /\
+  (k <> TIDENTIFIER <-> exists k', keyword_of (itext it) = Some k' /\ k = k').
+Proof.
+  intros H K HA. destruct (token_first_char _ _ _ _ _ _ _ H K HA) as (c & r & -> & HC).
+  destruct (scan1_word _ _ _ _ _ _ HC H) as (cs & _ & -> & _). cbn [ik itext] in *. inv_some K.
+  split; [reflexivity|]. split; [reflexivity|]. unfold word_kind.
+  destruct (keyword_of (c :: cs)) as [k0|] eqn:EK.
+  - split; [intros _; exists k0; auto|]. intros _. eapply keyword_not_identifier; exact EK.
+  - split; [congruence|]. intros (k' & Hk & _). discriminate.
+Qed.
+
+Corollary keyword_iff_in l line it rest line' k lit : scan1 l line = Some (it, rest, line') ->
+  ik it = IToken k lit -> is_alpha (hd 0 (itext it)) = true ->
+  (k <> TIDENTIFIER <-> In (itext it, k) keywords).
+Proof.
+  intros H K HA. destruct (keyword_iff _ _ _ _ _ _ _ H K HA) as (_ & _ & Q). rewrite Q.
+  split; [intros (k' & Hk & ->); apply keyword_of_iff; exact Hk|].
+  intros HI. exists k. split; [apply keyword_of_iff; exact HI|reflexivity].
+Qed.
+
+(* ------------------------------------------------------------------ *)
+(** * Item 8: string tokens *)
+
+(** The value of a string token is the text between the quotes, which contains no quote. *)
+Theorem string_value l line it rest line' body : scan1 l line = Some (it, rest, line') ->
+  ik it = IToken TSTRING (LStr body) -> itext it = 34 :: body ++ [34] /\ forallb not_quote body = true.
+Proof.
+  intros H. apply scan1_step_rel in H.
+  destruct H as
+    [ r line | c r line H10 HB | r' body0 rest line ES | r' body0 rest line EC | r' line EC
+    | r line HS | r body0 rest' line ES | r body0 line ES
+    | c d r' k0 line P ET | c r k0 line P E2 E1
+    | c r ds rest fs rest' v line P E2 E1 ED ES EF EV
+    | c r ds rest fs rest' line P E2 E1 ED ES EF EV
+    | c r cs rest line P E2 E1 ED EA ES
+    | c r line P E2 E1 ED EA ]; cbn [ik itext]; intros K; try discriminate K.
+  inv_some K. split; [reflexivity|]. eapply span_forallb; exact ES.
+Qed.
+
+(** and string tokens are the only tokens with a string literal; the kind TSTRING always carries one *)
+Theorem string_kind l line it rest line' k lit : scan1 l line = Some (it, rest, line') ->
+  ik it = IToken k lit -> (k = TSTRING <-> exists body, lit = LStr body).
+Proof.
+  intros H. apply scan1_step_rel in H.
+  destruct H as
+    [ r line | c r line H10 HB | r' body0 rest line ES | r' body0 rest line EC | r' line EC
+    | r line HS | r body0 rest' line ES | r body0 line ES
+    | c d r' k0 line P ET | c r k0 line P E2 E1
+    | c r ds rest fs rest' v line P E2 E1 ED ES EF EV
+    | c r ds rest fs rest' line P E2 E1 ED ES EF EV
+    | c r cs rest line P E2 E1 ED EA ES
+    | c r line P E2 E1 ED EA ]; cbn [ik itext]; intros K; try discriminate K; inv_some K.
+  - split; [discriminate|]. intros (b & Hb). discriminate.
+  - split; [intros _; exists body0; reflexivity|reflexivity].
+  - split; [|intros (b & Hb); discriminate]. intros ->. unfold two_char in ET.
+    repeat match type of ET with (if ?x then _ else _) = _ => destruct x; [discriminate|] end. discriminate.
+  - split; [|intros (b & Hb); discriminate]. intros ->. unfold one_char in E1.
+    repeat match type of E1 with (if ?x then _ else _) = _ => destruct x; [discriminate|] end. discriminate.
+  - split; [discriminate|]. intros (b & Hb). discriminate.
+  - split; [|intros (b & Hb); discriminate]. intros Hk. exfalso. unfold word_kind in Hk.
+    destruct (keyword_of (c :: cs)) as [k0|] eqn:EK; [|discriminate].
+    apply keyword_of_iff in EK. subst k0. unfold keywords in EK. cbn [In] in EK. intuition discriminate.
+Qed.
+
+(* ------------------------------------------------------------------ *)
+(** * Item 9: maximal munch *)
+
+(** (a) a two-character operator is taken whenever its two characters are next; no side
+    condition is needed: its first character is none of newline, blank, slash, quote. *)
+Theorem two_char_first c d r line k : two_char c d = Some k ->
+  scan1 (c :: d :: r) line = Some (mkItem (IToken k LNone) [c; d] line, r, line).
+Proof. intros H. apply step_scan1. apply St_two; [eapply two_char_plain; exact H|exact H]. Qed.
+
+Theorem two_char_side_conditions c d k : two_char c d = Some k ->
+  c <> 10 /\ c <> 32 /\ c <> 13 /\ c <> 9 /\ c <> 47 /\ c <> 34.
+Proof.
+  intros H. destruct (two_char_chars _ _ _ H) as [Hc _]. simpl in Hc.
+  repeat split; intros ->; intuition discriminate.
+Qed.
+
+(** (b) identifiers and keywords are maximal: the lexeme is the first character followed by
+    the longest run of [is_alnum] characters; what follows does not start with one. *)
+Theorem word_maximal c r line it rest line' : is_alpha c = true ->
+  scan1 (c :: r) line = Some (it, rest, line') ->
+  exists cs, itext it = c :: cs /\ ik it = IToken (word_kind (c :: cs)) LNone /\
+             forallb is_alnum cs = true /\ r = cs ++ rest /\
+             match rest with d :: _ => is_alnum d = false | [] => True end.
+Proof.
+  intros HA H. destruct (scan1_word _ _ _ _ _ _ HA H) as (cs & ES & -> & _).
+  exists cs. cbn [ik itext]. split; [reflexivity|]. split; [reflexivity|].
+  destruct (span_spec _ _ _ _ ES) as (SA & SF & _). split; [exact SF|]. split; [exact SA|].
+  eapply span_rest_hd; exact ES.
+Qed.
+
+(** (c) numbers are maximal: digits, then a fraction only if the point is followed by a
+    digit; "a point not followed by a digit is not part of the number". *)
+Theorem number_maximal c r line it rest line' : is_digit c = true ->
+  scan1 (c :: r) line = Some (it, rest, line') ->
+  exists ds fs, itext it = (c :: ds) ++ fs /\ r = ds ++ fs ++ rest /\ forallb is_digit ds = true /\
+    (ik it = IBad LexBadNumber \/ exists v, ik it = IToken TNUMBER (LNum v)) /\
+    ((fs = [] /\ dig_hd rest = false /\ forall e t, rest = 46 :: e :: t -> is_digit e = false) \/
+     (exists e more, fs = 46 :: e :: more /\ forallb is_digit (e :: more) = true /\ dig_hd rest = false)).
+Proof.
+  intros HD H. apply scan1_step_rel in H.
+  assert (Num : forall ds rest0 fs, span is_digit r = (ds, rest0) -> frac rest0 = (fs, rest) ->
+     r = ds ++ fs ++ rest /\ forallb is_digit ds = true /\
+     ((fs = [] /\ dig_hd rest = false /\ forall e t, rest = 46 :: e :: t -> is_digit e = false) \/
+      (exists e more, fs = 46 :: e :: more /\ forallb is_digit (e :: more) = true /\ dig_hd rest = false))).
+  { intros ds rest0 fs ES EF. destruct (span_spec _ _ _ _ ES) as (SA & SF & _). pose proof (span_rest_hd _ _ _ _ ES) as SR.
+    destruct (frac_spec _ _ _ EF) as (FA & FC). split; [rewrite SA, FA; reflexivity|]. split; [exact SF|].
+    destruct FC as [(-> & FN)|FC]; [|right; exact FC]. left. split; [reflexivity|]. split; [|exact FN].
+    simpl in FA. subst rest0. destruct rest as [|x y]; [reflexivity|exact SR]. }
+  inversion H as
+    [ r0 line0 | c0 r0 line0 H10 HB | r' body rest0 line0 ES | r' body rest0 line0 EC | r' line0 EC
+    | r0 line0 HS | r0 body rest' line0 ES | r0 body line0 ES
+    | c0 d r' k0 line0 P ET | c0 r0 k0 line0 P E2 E1
+    | c0 r0 ds rest0 fs rest' v line0 P E2 E1 ED ES EF EV
+    | c0 r0 ds rest0 fs rest' line0 P E2 E1 ED ES EF EV
+    | c0 r0 cs rest0 line0 P E2 E1 ED EA ES
+    | c0 r0 line0 P E2 E1 ED EA ]; subst;
+    try (vm_compute in HD; discriminate HD); try congruence.
+  - apply blank_cases in HB. destruct HB as [->|[->| ->]]; vm_compute in HD; discriminate HD.
+  - destruct (two_char_chars _ _ _ ET) as [Hc _]. simpl in Hc.
+    repeat (destruct Hc as [Hc|Hc]; [subst c; vm_compute in HD; discriminate HD|]). contradiction.
+  - rewrite (digit_one_char _ HD) in E1. discriminate.
+  - exists ds, fs. cbn [ik itext]. destruct (Num ds rest0 fs ES EF) as (A & B & C).
+    split; [reflexivity|]. split; [exact A|]. split; [exact B|]. split; [right; exists v; reflexivity|exact C].
+  - exists ds, fs. cbn [ik itext]. destruct (Num ds rest0 fs ES EF) as (A & B & C).
+    split; [reflexivity|]. split; [exact A|]. split; [exact B|]. split; [left; reflexivity|exact C].
+Qed.
+
+(** a one-character operator is taken only when no two-character operator starts here *)
+Theorem one_char_only_if_no_two c d r line it rest line' k :
+  scan1 (c :: d :: r) line = Some (it, rest, line') -> two_char c d = Some k ->
+  it = mkItem (IToken k LNone) [c; d] line /\ rest = r.
+Proof.
+  intros H T. rewrite (two_char_first c d r line k T) in H. inv_some H. auto.
+Qed.
+
+(* ------------------------------------------------------------------ *)
+(** * Item 10: totality; the end-of-input token *)
+
+(** [lex] is a total function (a Gallina definition): every text has a token list, an
+    end-of-input line and a diagnostics list.  The end-of-input token is NOT an element
+    of [lx_tokens]; it is represented by [lx_eof_line] alone, so "exactly one EOF token,
+    at the end" holds by construction of the representation, and its line is given by
+    [eof_line]. *)
+Theorem lex_total src : exists toks fin ds, lex src = mkLexed toks fin ds /\ fin = 1 + count_nl src.
+Proof.
+  exists (lx_tokens (lex src)), (lx_eof_line (lex src)), (lx_diags (lex src)).
+  split; [destruct (lex src); reflexivity|apply eof_line].
+Qed.
+
+Print Assumptions scan1_iff.
+Print Assumptions scan1_step.
+Print Assumptions lex_items_partition.
+Print Assumptions eof_line.
+Print Assumptions token_line_spec.
+Print Assumptions lex_items_classify.
+Print Assumptions keyword_iff_in.
+Print Assumptions number_maximal.
